@@ -1,7 +1,6 @@
 package c12
 
 import (
-	"bytes"
 	"context"
 	"fmt"
 	"math/rand/v2"
@@ -17,7 +16,6 @@ import (
 	"github.com/buchgr/bazel-remote/v2/cache"
 	pb "github.com/buchgr/bazel-remote/v2/genproto/build/bazel/remote/execution/v2"
 	"google.golang.org/grpc/codes"
-	"google.golang.org/protobuf/proto"
 )
 
 const uploadArriveMax = 45 * time.Second
@@ -514,6 +512,3 @@ func (rg *rig) runWriteCases(nWrites, nFaults, nQueue int, half int) {
 		rg.fullQueueCase(fmt.Sprintf("%s-h%d-fq%d", rg.name, half, i), rng)
 	}
 }
-
-var _ = bytes.Equal
-var _ = proto.Equal
